@@ -13,6 +13,9 @@ import (
 type CombineResult struct {
 	BindingContexts []bctx.BindingContext
 	MonitorIDs      []string
+	// DisallowFailure is true if at least one of the merged tasks does not allow failure:
+	// its binding contexts must not be dropped when the combined run fails.
+	DisallowFailure bool
 }
 
 // combineBindingContextForHook combines binding contexts from a sequence of task with similar
@@ -84,6 +87,9 @@ func (op *ShellOperator) combineBindingContextForHook(tqs *queue.TaskQueueSet, q
 		tskMonitorIDs := tsk.GetMetadata().(MonitorIDAccessor).GetMonitorIDs()
 		if len(tskMonitorIDs) > 0 {
 			monitorIDs = append(monitorIDs, tskMonitorIDs...)
+		}
+		if af, ok := tsk.GetMetadata().(AllowFailureAccessor); ok && !af.GetAllowFailure() {
+			res.DisallowFailure = true
 		}
 		tasksFilter[tsk.GetId()] = false
 	}
